@@ -312,6 +312,13 @@ Proof.
   - rewrite len_skipn, (wfb_len _ _ Hk). reflexivity.
 Qed.
 
+(* PublicKey::hash: the digest of exactly the 32 key bytes, a well-formed 28-byte key hash *)
+Theorem pk_hash_is_keyhash pk : law_hash_shape P ->
+  pk_hash P pk = blake2b224 P pk /\ hash_from_bytes 28 (pk_hash P pk) = Ok (pk_hash P pk).
+Proof.
+  intros L. split; [reflexivity|]. unfold hash_from_bytes, pk_hash. rewrite (proj1 (L pk)). reflexivity.
+Qed.
+
 (* ================= hash types ================= *)
 Theorem hash_bech32_roundtrip n prefix bs :
   law_base32_roundtrip P -> law_bech32_roundtrip P -> hrp_valid prefix = true -> wfb n bs ->
@@ -337,7 +344,7 @@ Definition prims_bad_padding : prims :=
      xprv_normalize3 := fun b => b; pbkdf2_bip39 := fun _ _ => []; kdf := fun _ _ => [];
      aead_enc := fun _ _ p => (p, []); aead_dec := fun _ _ _ _ => None;
      b32_to_base32 := fun b => b; b32_from_base32 := fun _ => None;
-     b32_encode := fun _ _ => None; b32_decode := fun s => Some ([], s) |}.
+     b32_encode := fun _ _ => None; b32_decode := fun s => Some ([], s); blake2b224 := fun _ => [] |}.
 
 Theorem hash_from_bech32_unfixed_refuted :
   exists P n s, hash_from_bech32_gen P false n s = Panic.
